@@ -223,7 +223,51 @@ def cvc5_unsat(text, timeout_ms):
             pass
 
 
+def second_opinions(text, rec, opts, i):
+    """Thorough tier: every k-th proved obligation is re-checked by the other installed solvers on
+    the exported SMT-LIB text (z3 4.8.12 CLI, cvc5 CLI).  Only disagreement (sat) matters."""
+    k = opts.get('second_every')
+    if not k or rec.get('kind') == 'canary' or (i + len(rec.get('name', ''))) % k:
+        return
+    import shutil
+    import subprocess
+    import tempfile
+    out = {}
+    with tempfile.NamedTemporaryFile('w', suffix='.smt2', delete=False,
+                                     dir=os.environ.get('VERIF_SCRATCH')) as f:
+        f.write(text + '\n(check-sat)\n')
+        path = f.name
+    try:
+        z3old = '/usr/bin/z3'
+        if os.path.exists(z3old):
+            try:
+                r = subprocess.run([z3old, '-T:20', path], capture_output=True, text=True, timeout=40)
+                out['z3-4.8.12'] = (r.stdout.strip().splitlines() or ['?'])[0][:40]
+            except Exception as e:      # noqa
+                out['z3-4.8.12'] = 'error'
+        c5 = cvc5_unsat(text, 20000)
+        out['cvc5'] = 'unsat' if c5 is True else str(c5)[:40]
+    finally:
+        try:
+            os.unlink(path)
+        except OSError:
+            pass
+    rec['second'] = out
+
+
 def solve_one(args):
+    rec = _solve_one(args)
+    try:
+        if rec.get('result') == 'proved' and args[10].get('second_every'):
+            modnames, head, hyp_blocks, hyp_syms, goal_block, goal_syms, i, rec_, timeout_ms, seed, opts = args
+            text = head + ''.join(hyp_blocks) + goal_block + '\n(assert sel!%d)\n' % i
+            second_opinions(text, rec, opts, i)
+    except Exception as e:       # noqa
+        rec['second'] = {'error': repr(e)[:100]}
+    return rec
+
+
+def _solve_one(args):
     """Phase 2 worker: ONE obligation in a FRESH z3 context and a non-incremental
     solver (verdicts must not depend on what was solved before).  `unknown` is
     retried with another seed before it counts as undecided; then the
